@@ -45,7 +45,8 @@ import vlib
 import treeio
 import lexreflib as L
 
-THEOREMS = ["C14_conforms", "C14_conforms_directives", "C14_munch", "C14_separated", "C14_nested_comments"]
+THEOREMS = ["C14_conforms", "C14_conforms_directives", "C14_munch", "C14_unambiguous", "C14_separated",
+            "C14_nested_comments"]
 KEY_D26 = "radix-prefix-identifier"
 TRUSTED = [
     "Coq 8.16.1 kernel (coqc, vm_compute where the proofs use it); Print Assumptions of every theorem is checked against the allow-list (target: closed under the global context)",
@@ -746,6 +747,59 @@ def membership_tie(spec_exe, tkidx, quick):
     return bad, len(lines), pos, sorted({w for _k, w in meta})
 
 
+# ====================================================================== optional extra oracle: llvm-tblgen-14
+
+LLVM_TBLGEN = "/usr/bin/llvm-tblgen-14"
+LLVM_QUIRK = re.compile(r"[0-9]+(?:x[0-9a-fA-F]|b[01])")
+
+
+def llvm_acceptance(idents, ints):
+    """INFORMATIONAL (never part of the verdict): does llvm-tblgen-14 accept `def <ident>;` with that record
+    name, and does it read the integer literals with the same value?  llvm-tblgen's lexer has a heuristic the
+    reference grammar does not mention: <digits>x<hexdigit> / <digits>b<bindigit> "is most likely a number", so
+    12x3 is lexed as 12 followed by x3; such identifiers are listed as divergent, not as failures."""
+    if not os.path.exists(LLVM_TBLGEN):
+        return {"available": False}
+    import shutil
+    import tempfile
+    from concurrent.futures import ThreadPoolExecutor
+    d = tempfile.mkdtemp(prefix="c14-llvm-", dir=vlib.CACHE)
+
+    def run(i, src):
+        f = os.path.join(d, "t%d.td" % i)
+        open(f, "w").write(src)
+        p = subprocess.run([LLVM_TBLGEN, "-print-records", f], stdout=subprocess.PIPE, stderr=subprocess.STDOUT,
+                           text=True, timeout=60)
+        return p.stdout
+    try:
+        with ThreadPoolExecutor(max_workers=WORKERS) as ex:
+            outs = list(ex.map(lambda a: run(*a), [(i, "def %s;\n" % w) for i, w in enumerate(idents)]))
+            vouts = list(ex.map(lambda a: run(*a), [(1000000 + i, "defvar x = %s;\ndef A { int v = x; }\n" % w)
+                                                    for i, w in enumerate(ints)]))
+    finally:
+        shutil.rmtree(d, ignore_errors=True)
+    acc, quirk, rej = 0, [], []
+    for w, o in zip(idents, outs):
+        if re.search(r"^def %s \{" % re.escape(w), o, re.M):
+            acc += 1
+        elif LLVM_QUIRK.match(w):
+            quirk.append(w)
+        else:
+            rej.append(w)
+    same, other = 0, []
+    for w, o in zip(ints, vouts):
+        v = int(w[2:], 16) if w.startswith("0x") else int(w[2:], 2) if w.startswith("0b") else int(w)
+        v = v - (1 << 64) if v >= (1 << 63) else v
+        m = re.search(r"int v = (-?[0-9]+);", o)
+        if m and int(m.group(1)) == v:
+            same += 1
+        else:
+            other.append([w, m.group(1) if m else o.strip()[:80]])
+    return {"available": True, "identifiers_checked": len(idents), "identifiers_accepted_as_record_name": acc,
+            "identifiers_split_by_llvm_number_heuristic": quirk[:20], "identifiers_rejected": rej[:20],
+            "integers_checked": len(ints), "integers_same_value": same, "integers_other": other[:20]}
+
+
 # ====================================================================== the check
 
 def corpus_files():
@@ -1161,6 +1215,14 @@ def run(ctx):
     ctx.cov["correspondence_disagreement_classes"] = {k[5:]: v for k, v in sorted(keys.items()) if k.startswith("corr:")}
     ctx.cov["correspondence_disagreements_tolerated_by_dev_switch"] = tolerated
     ctx.cov["corpus_source"] = corpus_src
+    t1 = time.time()
+    try:
+        ids = [w for w in ID_BOUNDARY if len(w) < 60] + sorted({g.ident()[1] for _ in range(60)})
+        ints = [w for w in DEC_BOUNDARY + HEX_BOUNDARY + BIN_BOUNDARY if not w.startswith("+") or True]
+        ctx.cov["llvm_tblgen_14_informational"] = llvm_acceptance(ids, ints)
+    except Exception as ex:                          # informational only
+        ctx.cov["llvm_tblgen_14_informational"] = {"available": False, "error": str(ex)[:300]}
+    timing["llvm_tblgen"] = round(time.time() - t1, 1)
     samples = []
     for fam in ("fixed", "seq", "seq", "unchecked", "pair", "mutated"):
         cand = [c for c in cases if c[0] == fam and len(c[1]) < 80]
